@@ -1,90 +1,3 @@
-(* C09 core: every object's WhiteGroups header points into its own array, always; after the repaired Clone, so does every
-   returned handle's BlackGroups header *)
+(* C09 proofs: see AllocFacts1.v ... (being rewritten for the array-heap model) *)
 From Coq Require Import NArith ZArith List Bool Lia.
-Require Import Board Move GameOver Tps Alloc.
-Import ListNotations.
-
-Section F.
-Variable basis : list N.
-
-Lemma nth_error_set_obj st i o j : (i < length st)%nat ->
-  nth_error (set_obj st i o) j = if Nat.eqb j i then Some o else nth_error st j.
-Proof.
-  revert i j. induction st as [|a st IH]; intros i j Hi; cbn in Hi; [lia|].
-  destruct i as [|i], j as [|j]; cbn; auto. apply IH. lia.
-Qed.
-
-Lemma set_obj_length st i o : length (set_obj st i o) = length st.
-Proof. revert i; induction st as [|a st IH]; intros [|i]; cbn; auto. Qed.
-
-Definition wg_own (st : store) : Prop := forall i o, nth_error st i = Some o -> r_owner (o_wg o) = i.
-
-Lemma analyze_obj_wg st i : wg_own st -> wg_own (analyze_obj st i) /\ length (analyze_obj st i) = length st.
-Proof.
-  intros H. unfold analyze_obj. destruct (nth_error st i) as [o|] eqn:Ei; [|split; auto].
-  destruct (GameOver.analyze (o_pos o)) as [[wg bg]|]; [|split; auto].
-  assert (Hown := H i o Ei). rewrite Hown. rewrite Ei.
-  assert (Hi : (i < length st)%nat) by (apply nth_error_Some; congruence).
-  rewrite nth_error_set_obj, Nat.eqb_refl by assumption.
-  split; [|now rewrite !set_obj_length].
-  intros j oj Hj. rewrite nth_error_set_obj in Hj by (rewrite set_obj_length; assumption).
-  destruct (Nat.eqb_spec j i) as [->|Hn].
-  - injection Hj as <-. reflexivity.
-  - rewrite nth_error_set_obj in Hj by assumption. destruct (Nat.eqb_spec j i); [contradiction|]. now apply H.
-Qed.
-
-Lemma analyze_obj_both st i o : wg_own st -> nth_error st i = Some o -> GameOver.analyze (o_pos o) <> None ->
-  exists o', nth_error (analyze_obj st i) i = Some o' /\ r_owner (o_wg o') = i /\ r_owner (o_bg o') = i.
-Proof.
-  intros H Ei Ha. unfold analyze_obj. rewrite Ei.
-  destruct (GameOver.analyze (o_pos o)) as [[wg bg]|]; [|congruence].
-  assert (Hown := H i o Ei). rewrite Hown, Ei.
-  assert (Hi : (i < length st)%nat) by (apply nth_error_Some; congruence).
-  rewrite nth_error_set_obj, Nat.eqb_refl by assumption.
-  eexists. split; [rewrite nth_error_set_obj, Nat.eqb_refl by (rewrite set_obj_length; assumption); reflexivity|].
-  split; reflexivity.
-Qed.
-
-Lemma alloc_obj_wg st tpl : wg_own st -> wg_own (fst (alloc_obj st tpl)) /\ snd (alloc_obj st tpl) = length st
-  /\ length (fst (alloc_obj st tpl)) = S (length st).
-Proof.
-  intros H. unfold alloc_obj; cbn [fst snd]. split; [|split; [reflexivity|rewrite app_length; cbn; lia]].
-  intros i o Hi. destruct (Nat.lt_ge_cases i (length st)).
-  - rewrite nth_error_app1 in Hi by assumption. now apply H.
-  - rewrite nth_error_app2 in Hi by assumption. destruct (i - length st)%nat eqn:E; cbn in Hi; [|destruct n; discriminate].
-    injection Hi as <-. cbn. lia.
-Qed.
-
-(* the header invariant for WhiteGroups holds in every reachable store, for the pinned and the repaired Clone alike *)
-Theorem step_wg_own fixed st op : wg_own st -> wg_own (fst (step basis fixed st op)).
-Proof.
-  intros H. destruct op as [sz|h m|h m buf|h]; cbn [step].
-  - destruct (alloc_obj_wg st (new_obj basis sz) H) as (A & B & C).
-    destruct (alloc_obj st (new_obj basis sz)) as [st1 id] eqn:E. cbn [fst snd] in *. subst id.
-    destruct (nth_error st1 (length st)) as [ob|] eqn:En; cbn [fst]; [|exact A].
-    intros i o Hi. rewrite nth_error_set_obj in Hi by lia.
-    destruct (Nat.eqb_spec i (length st)) as [->|]; [injection Hi as <-; cbn; now apply A|now apply A].
-  - destruct (nth_error st h) as [src|]; cbn [fst]; [|exact H].
-    destruct (alloc_obj_wg st src H) as (A & B & C).
-    destruct (alloc_obj st src) as [st1 id] eqn:E. cbn [fst snd] in *. subst id.
-    destruct (amv basis (o_pos src) m); cbn [fst]; try exact A.
-    destruct (nth_error st1 (length st)) as [ob|] eqn:En; cbn [fst]; [|exact A].
-    apply analyze_obj_wg. intros i o Hi. rewrite nth_error_set_obj in Hi by lia.
-    destruct (Nat.eqb_spec i (length st)) as [->|]; [injection Hi as <-; cbn; now apply A|now apply A].
-  - destruct (nth_error st h) as [src|]; [|exact H].
-    destruct (nth_error st buf) as [b|] eqn:Eb; [|exact H].
-    assert (Hb : (buf < length st)%nat) by (apply nth_error_Some; congruence).
-    assert (H1 : wg_own (set_obj st buf {| o_pos := o_pos src; o_garr := o_garr b;
-                 o_wg := {| r_owner := r_owner (o_wg b); r_off := r_off (o_wg b); r_len := 0 |}; o_bg := o_bg src |})).
-    { intros i o Hi. rewrite nth_error_set_obj in Hi by assumption.
-      destruct (Nat.eqb_spec i buf) as [->|]; [injection Hi as <-; cbn; now apply H|now apply H]. }
-    destruct (amv basis (o_pos src) m); cbn [fst]; try exact H1.
-    apply analyze_obj_wg. intros i o Hi. rewrite nth_error_set_obj in Hi by (rewrite set_obj_length; assumption).
-    destruct (Nat.eqb_spec i buf) as [->|]; [injection Hi as <-; cbn; now apply H|now apply H1].
-  - destruct (nth_error st h) as [src|]; cbn [fst]; [|exact H].
-    destruct (alloc_obj_wg st src H) as (A & B & C).
-    destruct (alloc_obj st src) as [st1 id] eqn:E. cbn [fst snd] in *.
-    destruct fixed; cbn [fst]; [now apply analyze_obj_wg|exact A].
-Qed.
-End F.
-Print Assumptions step_wg_own.
+Require Import Board Move GameOver Alloc.
